@@ -15,7 +15,7 @@ REPO = os.environ.get("VERIF_REPO", "/repo")
 SPEC = os.path.join(VERIF, "spec")
 BUILD = os.path.join(VERIF, ".build")
 BIN = os.path.join(BUILD, "bin")
-EVID = os.path.join(VERIF, "evidence")
+EVID = os.environ.get("VERIF_EVID") or os.path.join(VERIF, "evidence")
 REPLAYS = os.path.join(EVID, "replays")
 TLA_CP = "/opt/veriftools/tla/tla2tools.jar:/opt/veriftools/tla/CommunityModules-deps.jar"
 NCPU = os.cpu_count() or 4
@@ -360,16 +360,31 @@ _built = {}
 
 
 def go_build(race=False, pkgs="./cmd/..."):
-    """Build the harness binaries from /verif/harness against the *current* /repo tree."""
+    """Build the harness binaries from /verif/harness against the *current* tree of the repository under test
+    (/repo, or $VERIF_REPO: then an alternative go.mod with the `replace` pointing there is used via -modfile and the
+    binaries go to their own directory)."""
     key = (race, pkgs)
     if key in _built:
         return _built[key]
     h = os.path.join(VERIF, "harness")
-    out = os.path.join(BIN, "race" if race else "plain")
-    os.makedirs(out, exist_ok=True)
-    # go.sum of the harness = go.sum of /repo (same dependency set, nothing fetched)
-    shutil.copy(os.path.join(REPO, "go.sum"), os.path.join(h, "go.sum"))
+    sub = "race" if race else "plain"
     cmd = [GO, "build", "-tags", "verif"]
+    if os.path.realpath(REPO) == "/repo":
+        out = os.path.join(BIN, sub)
+        # go.sum of the harness = go.sum of /repo (same dependency set, nothing fetched)
+        shutil.copy(os.path.join(REPO, "go.sum"), os.path.join(h, "go.sum"))
+    else:
+        tag = hashlib.sha1(os.path.realpath(REPO).encode()).hexdigest()[:10]
+        out = os.path.join(BIN, "alt_" + tag, sub)
+        os.makedirs(os.path.join(BUILD, "alt"), exist_ok=True)
+        mod = os.path.join(BUILD, "alt", tag + ".mod")
+        with open(os.path.join(h, "go.mod")) as fh:
+            txt = fh.read().replace("=> /repo", "=> " + os.path.realpath(REPO))
+        with open(mod, "w") as fh:
+            fh.write(txt)
+        shutil.copy(os.path.join(REPO, "go.sum"), os.path.join(BUILD, "alt", tag + ".sum"))
+        cmd.append("-modfile=" + mod)
+    os.makedirs(out, exist_ok=True)
     if race:
         cmd.append("-race")
     cmd += ["-o", out + "/", pkgs]
@@ -379,7 +394,7 @@ def go_build(race=False, pkgs="./cmd/..."):
         # a tree that does not build is machinery trouble for us (the change under test must compile)
         raise MachineryError("harness build failed:\n" + r.stdout[-4000:])
     _built[key] = out
-    log("[build] harness (%s) built in %.1fs" % ("race" if race else "plain", time.time() - t0))
+    log("[build] harness (%s) built in %.1fs" % (sub, time.time() - t0))
     return out
 
 
